@@ -10,16 +10,18 @@ Inductive xpop :=
 | XPTick (ms : Z)
   (* limiter index, key, Redis failing during the call, calcExpireSeconds() around the call;
      observed: code, error class (0 none, 1 redis error, 2 ErrUnknownCode), the key afterwards,
-     [unix0; zone offset; calcExpireSeconds before; unix1; calcExpireSeconds after] *)
+     [unix0; zone offset; _; unix1; _] (wall clock around the call) *)
 | XPTake (lim key : nat) (down : bool) (w : Z) (code err : Z) (ent : ent3) (exp : list Z)
   (* g goroutines, one Take each; observed: how many answered code 0..3, how many errors *)
-| XPConc (lim key : nat) (g : nat) (w : Z) (counts : list Z) (errs : Z) (ent : ent3)
+| XPConc (lim key : nat) (g : nat) (w : Z) (counts : list Z) (errs : Z) (ent : ent3) (exp : list Z)
   (* the server is replaced by a fresh miniredis on the same address *)
 | XPReplace.
 
 (* redisAlive / monitorStarted of the two limiter instances, and the two bucket keys on the
    server that is currently listening *)
-Record snap := mkSnap { s_alive0 : bool; s_mon0 : bool; s_alive1 : bool; s_mon1 : bool; s_tok : ent3; s_ts : ent3 }.
+(* s_known = false: the driver could not read the switch state (the limiter's unexported fields were
+   renamed): only the bucket keys are compared then *)
+Record snap := mkSnap { s_known : bool; s_alive0 : bool; s_mon0 : bool; s_alive1 : bool; s_mon1 : bool; s_tok : ent3; s_ts : ent3 }.
 
 (* inst: which of the two TokenLimiter instances (same key, rate, burst; own store wrapper) is called *)
 Inductive xtop :=
@@ -92,13 +94,13 @@ Fixpoint pmodel (lims : list (Z * Z * bool * nat)) (st : pstate) (ops : list xpo
       match out with Some (_, res) => res_eqb res code err | None => false end &&
       ent_eqb (fst st') (rget (fst st') k (snd st')) ent &&
       pmodel lims st' r
-  | XPConc lim key g w counts errs ent :: r =>
+  | XPConc lim key g w counts errs ent exp :: r =>
       let '(period, quota, align, pfx) := lim_of lims lim in
       let k := kid pfx key in
       let takes := repeat (PTake k quota w true) g in
       let outs := map snd (prun st takes) in
       let st' := pfinal st takes in
-      (if align then true else w =? period) &&
+      window_ok align period w exp &&
       zlist_eqb counts (map (fun c => countb (fun o => rz_eqb o (Ok c)) outs) [0; 1; 2; 3]) &&
       (errs =? 0) &&
       ent_eqb (fst st') (rget (fst st') k (snd st')) ent &&
@@ -127,7 +129,7 @@ Fixpoint pspec (lims : list (Z * Z * bool * nat)) (t : Z) (ws : windows) (ops : 
         let wl := if align then w else period in
         let (ws', c) := wtake t (kid pfx key) quota wl ws in
         (err =? 0) && (code =? c) && (1 <=? wl) && (wl <=? period) && pspec lims t ws' r
-  | XPConc lim key g w counts errs ent :: r =>
+  | XPConc lim key g w counts errs ent exp :: r =>
       let '(period, quota, align, pfx) := lim_of lims lim in
       if period <? 1 then true
       else
@@ -172,8 +174,9 @@ Definition mon_started (l : limiter) : bool := match monitor l with MIdle => fal
 
 Definition snap_ok (c : tcfg) (st : xstate) (sn : snap) : bool :=
   let '(w, l0, l1) := st in
-  Bool.eqb (alive l0) (s_alive0 sn) && Bool.eqb (mon_started l0) (s_mon0 sn) &&
-  Bool.eqb (alive l1) (s_alive1 sn) && Bool.eqb (mon_started l1) (s_mon1 sn) &&
+  (negb (s_known sn) ||
+   (Bool.eqb (alive l0) (s_alive0 sn) && Bool.eqb (mon_started l0) (s_mon0 sn) &&
+    Bool.eqb (alive l1) (s_alive1 sn) && Bool.eqb (mon_started l1) (s_mon1 sn))) &&
   ent_eqb (clock w) (rget (clock w) (c_ktok c) (rstore w)) (s_tok sn) &&
   ent_eqb (clock w) (rget (clock w) (c_kts c) (rstore w)) (s_ts sn).
 
